@@ -59,7 +59,10 @@ Record c02_case := mkc02 {
   q_first : list row; q_arity : nat;
   q_joins : list jstepq;
   q_where : list cond;
-  q_out : list rec            (* observed rows, with the retraction flag the sink printed (stream_native) *)
+  q_out : list rec;           (* observed rows, with the retraction flag the sink printed (stream_native) *)
+  (* node-level part (empty for CLI cases): LookupJoin run in-process over a scripted source changelog and a scripted
+     joined side (the same changelog for every source record), with retractions on both *)
+  q_lsrc : list rec; q_ljoined : list rec; q_lout : list event
 }.
 
 Fixpoint run_joins (acc : list row) (n : nat) (js : list jstepq) : list row :=
@@ -72,6 +75,12 @@ Definition c02_expected (c : c02_case) : list row :=
   filter (all_hold (q_where c)) (run_joins (q_first c) (q_arity c) (q_joins c)).
 
 Definition c02_spec (c : c02_case) : bool := bag_eqb (q_out c) (map ins (c02_expected c)).
+
+(* LookupJoin on changelogs: exact emissions (tie) and the consolidated result (spec): every source record against every
+   joined record, retracted iff exactly one of the two is a retraction *)
+Definition c02_lookup_model (c : c02_case) : list rec := lookup_join (fun _ => q_ljoined c) (q_lsrc c).
+Definition c02_lookup_tie (c : c02_case) : bool := events_eqb (map Rec (c02_lookup_model c)) (q_lout c).
+Definition c02_lookup_spec (c : c02_case) : bool := bag_eqb (records (q_lout c)) (c02_lookup_model c).
 
 (* ---- node level: the equalities of ON as join keys ---- *)
 Fixpoint eq_conds (is js : list nat) : list cond :=
